@@ -449,6 +449,8 @@ func (r *runner) checkState() {
 			site := "other"
 			if o, ok := r.w.dlByID[dl]; ok && o.Kind != "good" {
 				site = o.Kind + "-stored"
+			} else if dl == "?unknown" {
+				site = "unknown-content"
 			} else if dl == "none" {
 				site = "lost"
 			} else if want == "none" {
@@ -1103,8 +1105,18 @@ func TestDriver(t *testing.T) {
 	defer out.Close()
 	bw := bufio.NewWriter(out)
 	defer bw.Flush()
+	wedged := ""
 	for _, sc := range in.Scripts {
-		res := runScript(w, sc, in.Sabotage)
+		var res resultT
+		if wedged != "" {
+			// goroutines of an earlier script are stuck inside the code under test: nothing that follows can be trusted
+			res = resultT{ID: sc.ID, Error: "not run: " + wedged}
+		} else {
+			res = runScript(w, sc, in.Sabotage)
+			if strings.Contains(res.Error, "do not come to rest") || strings.Contains(res.Error, "does not return") {
+				wedged = res.Error
+			}
+		}
 		b, _ := json.Marshal(res)
 		bw.Write(b)
 		bw.WriteString("\n")
